@@ -304,6 +304,7 @@ type c20Case struct {
 	scids  map[uint64]bool
 	peers  map[int]*mockPeer
 	assume bool
+	pruneN int
 }
 
 func (h *c20) pf(format string, a ...interface{}) { fmt.Fprintf(h.w, format+"\n", a...) }
@@ -615,7 +616,7 @@ func (cs *c20Case) settle() (string, string) {
 	bc := cs.bcast
 	cs.bcast = nil
 	cs.bmu.Unlock()
-	var rel, unf []string
+	var rel, unf, unfStripped []string
 	for _, m := range bc {
 		key := c20Wire(m)
 		id, ok := cs.mids[string(key)]
@@ -624,23 +625,37 @@ func (cs *c20Case) settle() (string, string) {
 			continue
 		}
 		rel = append(rel, strconv.Itoa(id))
+		// the received bytes with exactly the unknown extra-data TLVs removed
+		var stripped []byte
+		if cu, isCU := m.(*lnwire.ChannelUpdate1); isCU && len(cu.ExtraOpaqueData) > 0 {
+			ext := []byte(cu.ExtraOpaqueData)
+			if known, okTLV := c20KnownTLVs(ext); okTLV && len(known) < len(ext) {
+				stripped = append(append([]byte(nil), key[:len(key)-len(ext)]...), known...)
+			}
+		}
 		// what the peer layer would put on the wire for this struct
 		var b bytes.Buffer
 		if _, err := lnwire.WriteMessage(&b, m, 0); err != nil || !bytes.Equal(b.Bytes(), key) {
 			unf = append(unf, strconv.Itoa(id))
+			if err == nil && stripped != nil && bytes.Equal(b.Bytes(), stripped) {
+				unfStripped = append(unfStripped, strconv.Itoa(id))
+			}
 		}
 	}
 	sort.Strings(rel)
 	sort.Strings(unf)
+	sort.Strings(unfStripped)
 	relay := "-"
 	if len(rel) > 0 {
 		relay = strings.Join(rel, ",")
 	}
-	if len(unf) > 0 {
-		relay += " wf=" + strings.Join(unf, ",")
-	} else {
-		relay += " wf=-"
+	j := func(xs []string) string {
+		if len(xs) == 0 {
+			return "-"
+		}
+		return strings.Join(xs, ",")
 	}
+	relay += " wf=" + j(unf) + " wfs=" + j(unfStripped)
 
 	var rs []string
 	var keep []c20Pending
@@ -800,6 +815,51 @@ func (cs *c20Case) mid(raw []byte) int {
 	cs.nmid++
 	cs.mids[string(raw)] = cs.nmid
 	return cs.nmid
+}
+
+// c20KnownTLVs parses a TLV stream by hand and returns the concatenation of the
+// records lnwire knows for a channel_update (type 55555, inbound fee).
+func c20KnownTLVs(b []byte) ([]byte, bool) {
+	big := func(b []byte) (uint64, int) {
+		if len(b) == 0 {
+			return 0, 0
+		}
+		switch b[0] {
+		case 0xfd:
+			if len(b) < 3 {
+				return 0, 0
+			}
+			return uint64(binary.BigEndian.Uint16(b[1:3])), 3
+		case 0xfe:
+			if len(b) < 5 {
+				return 0, 0
+			}
+			return uint64(binary.BigEndian.Uint32(b[1:5])), 5
+		case 0xff:
+			if len(b) < 9 {
+				return 0, 0
+			}
+			return binary.BigEndian.Uint64(b[1:9]), 9
+		}
+		return uint64(b[0]), 1
+	}
+	var out []byte
+	for len(b) > 0 {
+		t, n1 := big(b)
+		if n1 == 0 {
+			return nil, false
+		}
+		l, n2 := big(b[n1:])
+		if n2 == 0 || uint64(len(b)-n1-n2) < l {
+			return nil, false
+		}
+		end := n1 + n2 + int(l)
+		if t == 55555 {
+			out = append(out, b[:end]...)
+		}
+		b = b[end:]
+	}
+	return out, true
 }
 
 // c20Signed returns the byte string the BOLT 7 signatures of a message cover:
@@ -1073,6 +1133,32 @@ func (cs *c20Case) chainSet(scid lnwire.ShortChannelID, res string, kind int, k1
 	}
 	cs.chain.program(scid, res, script, value, spent)
 	h.pf("chain scid=%d res=%s script=%s value=%d spent=%d", scid.ToUint64(), res, sdesc, value, spent)
+}
+
+// prune reports the funding output of scid as spent in a new block to the graph
+// DB (ChannelGraph.PruneGraph, what the builder does for closed channels): the
+// channel goes away and unconnected nodes are garbage-collected.
+func (cs *c20Case) prune(scid lnwire.ShortChannelID) {
+	ctx := context.Background()
+	op := wire.OutPoint{Index: 0xffff}
+	if info, _, _, err := cs.vg.FetchChannelEdgesByID(ctx, scid.ToUint64()); err == nil && info != nil {
+		op = info.ChannelPoint
+	}
+	cs.pruneN++
+	hash := *c20HeightHash(int64(2000 + cs.pruneN))
+	res := "ok"
+	func() {
+		defer func() {
+			if r := recover(); r != nil {
+				res = "panic"
+			}
+		}()
+		if _, err := cs.g.PruneGraph(ctx, []*wire.OutPoint{&op}, &hash, uint32(2000+cs.pruneN)); err != nil {
+			res = "err"
+		}
+	}()
+	relay, rs := cs.settle()
+	cs.h.pf("prn scid=%d => res=%s rs=%s relay=%s %s", scid.ToUint64(), res, rs, relay, cs.dump())
 }
 
 // zombie marks scid as a zombie in the graph DB, the way the builder's pruning
@@ -1919,6 +2005,41 @@ func (h *c20) caseEntry(variant int) {
 	})
 }
 
+// casePrune: channels are closed on chain and pruned; node announcements and
+// updates for the vanished channel / node must no longer be applied.
+func (h *c20) casePrune(variant int) {
+	a, b := h.stdChan(variant), h.stdChan(variant+1) // they share one node
+	h.runCase(c20CaseOpts{kind: "prune"}, func(cs *c20Case) {
+		cs.goodChain(a)
+		cs.goodChain(b)
+		t0 := cs.nowSec() - 2000
+		cs.submit(1, h.mkCA(a))
+		cs.submit(1, h.mkCA(b))
+		for _, n := range []int{a.n1, a.n2, b.n1, b.n2} {
+			cs.submit(1, h.mkNA(n, t0, 0))
+		}
+		cs.submit(1, h.mkCU(a.scid, c20DefaultUpd(t0, 0), a.n1))
+		cs.submit(1, h.mkCU(a.scid, c20DefaultUpd(t0, 1), a.n2))
+		cs.submit(1, h.mkCU(b.scid, c20DefaultUpd(t0, 0), b.n1))
+		if variant%2 == 1 {
+			cs.chainSet(a.scid, "utxo", c20ScriptMS, h.pub(a.b1), h.pub(a.b2), a.cap, 1)
+		}
+		cs.prune(a.scid)
+		// the nodes of the vanished channel: newer announcements
+		cs.submit(2, h.mkNA(a.n1, t0+5, 1))
+		cs.submit(2, h.mkNA(a.n2, t0+5, 1))
+		cs.submit(2, h.mkCU(a.scid, c20DefaultUpd(t0+5, 0), a.n1))
+		cs.entry("au", h.mkCU(a.scid, c20DefaultUpd(t0+6, 1), a.n2))
+		cs.entry("ue", h.mkCU(a.scid, c20DefaultUpd(t0+7, 1), a.n2))
+		cs.submit(3, h.mkCA(a)) // re-announced: accepted again only if still unspent
+		cs.submit(3, h.mkNA(a.n1, t0+6, 2))
+		cs.prune(b.scid)
+		cs.prune(b.scid) // nothing left to prune
+		cs.submit(4, h.mkNA(b.n2, t0+9, 3))
+		cs.submit(4, h.mkNA(b.n1, t0+9, 3))
+	})
+}
+
 // caseMisc: own-channel announcement, AssumeChannelValid.
 func (h *c20) caseOwn() {
 	h.runCase(c20CaseOpts{kind: "own"}, func(cs *c20Case) {
@@ -2045,10 +2166,16 @@ func (h *c20) caseRandom() {
 					cs.submit(pid, m)
 				}
 			default:
-				if r.Intn(2) == 0 {
+				switch r.Intn(3) {
+				case 0:
 					cs.goodChain(c)
-				} else {
+				case 1:
 					cs.chainSet(c.scid, "utxo", c20ScriptMS, h.pub(c.b1), h.pub(c.b2), c.cap, 1)
+				default:
+					// closed on chain: spent, then pruned (never re-added, so
+					// updates cached afterwards are never replayed concurrently)
+					cs.chainSet(c.scid, "utxo", c20ScriptMS, h.pub(c.b1), h.pub(c.b2), c.cap, 1)
+					cs.prune(c.scid)
 				}
 			}
 		}
@@ -2135,6 +2262,9 @@ func TestVerifC20(t *testing.T) {
 	}
 	for v := 0; v < rep(4, 8); v++ {
 		h.caseEntry(v)
+	}
+	for v := 0; v < rep(3, 6); v++ {
+		h.casePrune(v)
 	}
 	h.caseOwn()
 	for v := 0; v < rep(2, 3); v++ {
